@@ -51,7 +51,14 @@ def gen_case(rng, pools):
                    else round(rng.uniform(0, 20), rng.randint(0, 4)) for _ in range(n)]
         if rng.random() < 0.35:
             weights[rng.randrange(n)] = 0.0
+        if rng.random() < 0.10:
+            # weights on a tiny (or huge) absolute scale: only their proportions matter, and "zero
+            # total weight gives zeros" means exactly zero
+            sc = 10.0 ** rng.choice([-14, -12, -9, -6, 6, 9])
+            weights = [w * sc for w in weights]
     density = 0.0 if rng.random() < 0.05 else nc.gen_density(rng)
+    if rng.random() < 0.06:
+        density = 10.0 ** rng.uniform(-13, -6)      # a tiny density is not a zero density
     m = rng.random()
     if m < 0.4:
         mode, ws = "scalar", [nc.gen_wavelength(rng, pools)]
